@@ -845,7 +845,31 @@ func runCase(line, origin string) {
 			propFail("group-alias:ecmult", line+": a.ECmult(&a,…) differs from a.ECmult(&r,…)", c)
 		}
 		if ap, on := a.ref(); on && a.inContract() && !a.inf && na.BitLen() <= 256 && ng.BitLen() <= 256 {
-			prop = func() bool { return checkPoint(op, res, refAdd(refMul(na, ap), refMul(ng, refG)), c) }
+			prop = func() bool {
+				want := refAdd(refMul(na, ap), refMul(ng, refG))
+				if !checkPoint(op, res, want, c) {
+					return false
+				}
+				// public API: Multiply (ng = 0) and BaseMultiplyAdd (na = 1) on the same operands
+				pub := append([]byte{4}, append(b32(ap.x), b32(ap.y)...)...)
+				out33 := make([]byte, 33)
+				if ng.Sign() == 0 && !want.inf {
+					secp.Multiply(pub, b32(na), out33)
+					if out33[0] != byte(2+want.y.Bit(0)) || hex.EncodeToString(out33[1:]) != hex.EncodeToString(b32(want.x)) {
+						propFail("api-multiply", fmt.Sprintf("Multiply(%x, %x) = %x, k·P = %s", pub, na, out33, want), c)
+						return false
+					}
+				}
+				w2 := refAdd(ap, refMul(ng, refG))
+				if !w2.inf {
+					secp.BaseMultiplyAdd(pub, b32(ng), out33)
+					if out33[0] != byte(2+w2.y.Bit(0)) || hex.EncodeToString(out33[1:]) != hex.EncodeToString(b32(w2.x)) {
+						propFail("api-basemultiplyadd", fmt.Sprintf("BaseMultiplyAdd(%x, %x) = %x, P + k·G = %s", pub, ng, out33, w2), c)
+						return false
+					}
+				}
+				return true
+			}
 		}
 	case "ecmultgen":
 		a, ok := parseInt(t[1])
